@@ -83,6 +83,19 @@ KeyHist(c, r) ==
                ELSE <<>>)
               \o (IF r.got = Absent /\ r.st \notin {StAccepted, -2}
                   THEN <<HV("C06", "the resident key was evicted although the incoming key was refused")>> ELSE <<>>)>>
+    \* "hand-over" rounds: r.v = 1 when the first task saw Pending and the second one went to sleep; r.got = -1 when the sleeper was
+    \* not woken although the acknowledgement completed
+    [] r.op = "handover" ->
+         <<c, (IF r.got = Absent
+               THEN <<HV("C12", "the task that most recently polled the acknowledgement before completion was not woken by it"),
+                      HV("C18", "a task awaiting an acknowledgement was never woken: its await would not return")>>
+               ELSE <<>>)
+              \o (IF r.st = 0 THEN <<HV("C12", "awaiting the acknowledgement yielded the placeholder status")>> ELSE <<>>)>>
+    \* "contended completion" rounds: r.v polls returned Pending (all with one waker), r.got calls of that waker
+    [] r.op = "contend" ->
+         <<c, (IF r.v > 0 /\ r.got = 0
+               THEN <<HV("C12", "polls returned Pending with a waker registered, and the completion did not call it (the wake-up was skipped)")>> ELSE <<>>)
+              \o (IF r.st = 0 THEN <<HV("C12", "a poll yielded the placeholder status as the result")>> ELSE <<>>)>>
     [] OTHER -> <<c, <<>>>>
 
 Init == l = 1 /\ cur = [k \in {} |-> Absent]
